@@ -319,12 +319,13 @@ def solve(o, timeout_ms=6000, dump_dir=None, want_model=True, eng=None, expect_f
             o.model_kind = "quant"
     o.result = "failed"
     o.solver = "z3"
-    if o.model is None and want_model and eng is not None:
+    if want_model and eng is not None and getattr(o, "model_kind", None) != "quant":
         try:
             r, m = axioms.refute(eng, o, nonspec, timeout_ms=min(timeout_ms, 5000))
             o.reason += f"; refutation: {r}"
-            o.model = m
-            o.model_kind = "rec"
+            if m is not None:
+                o.model = m
+                o.model_kind = "rec"
         except Exception as ex:
             o.reason += f"; refutation error {type(ex).__name__}: {ex}"
     o.time = time.time() - t0
